@@ -49,6 +49,12 @@ def main(argv):
                 mod.run(rep, tier)
         else:
             mod.run(rep, tier)
+        # thorough tier: the compiled property modules are re-checked by the toolchain's independent checker
+        if tier == 'thorough' and rep.lean is not None and rep.lean.ok and hasattr(mod, 'PROP_MODULES') and 'leanchecker_ok' not in rep.extra:
+            ok, out = common.leanchecker(mod.PROP_MODULES)
+            rep.extra['leanchecker_ok'] = ok
+            if not ok:
+                rep.tie_broken('leanchecker rejected the compiled property modules', out[-600:])
         # a broken proof / translator is a broken tie (reported if no failing input is found)
         if rep.lean is not None and not rep.lean.ok:
             for p in rep.lean.problems:
